@@ -41,3 +41,5 @@ def extra(ck, pid, baselines):
     except ImportError:
         return
     tracecheck.check_traces(ck, pid, baselines)
+    if pid == 'C17':
+        tracecheck.check_fault_traces(ck, pid)
